@@ -78,6 +78,10 @@ def make_df(tab, variant):
     df = pd.DataFrame(cols)
     if variant % 3 == 1:
         df.index = [f"r{i}" for i in range(len(tab))][::-1]
+    elif variant % 7 == 3:
+        df.index = [i // 2 for i in range(len(tab))]            # repeated row labels (frames stacked with pd.concat)
+    elif variant % 7 == 5:
+        df.index = [0] * len(tab)
     return df, by, two
 
 
@@ -95,16 +99,18 @@ def grid_ok(got, want):
     return len(flat_g) == len(flat_w) and all(estim.close(g, x) for g, x in zip(flat_g, flat_w))
 
 
-def replay_doc(ctx, doc, n):
+def replay_doc(ctx, doc, n, variant=None):
     import pyrepseq as prs
     import warnings
     warnings.filterwarnings("ignore")
     fn, tab, opt, kept, res = doc["fn"], doc["tab"], doc["opt"], doc["kept"], doc["res"]
-    variant = n % 6
+    import zlib
+    if variant is None:
+        variant = zlib.crc32(str(n).encode()) % 84      # independent of the thinning pattern applied to n
     df, by, two = make_df(tab, variant)
     before = df.copy(deep=True)
     on = ["CDR3B", "extra"] if opt.get("joint") else "CDR3B"
-    rp = dict(kind="replay", doc=doc, variant=variant)
+    rp = dict(kind="replay", doc=doc, variant=variant, n=n)
     ngroups = len({r[0] for r in tab})
     desc = f"{fn}(rows={[[r[0], S(r[1]), S(r[2])] for r in tab]}, by={by}, on={on}, opt={ {k: v for k, v in opt.items() if k != 'joint'} })"
 
@@ -266,7 +272,7 @@ def replay(doc):
     ctx._known = []
     r = doc["replay"]
     if r.get("kind") == "replay":
-        replay_doc(ctx, r["doc"], r.get("variant", 0))
+        replay_doc(ctx, r["doc"], r.get("n", 0), variant=r.get("variant", 0))
         return 1 if ctx.violations else 0
     print("re-run ./check C13")
     return 1
